@@ -2,7 +2,7 @@
 import z3
 from .models import *
 from .values import *
-from .sstr import SStr, Sym
+from .sstr import SStr
 from .interp import Inconclusive, Program
 
 
@@ -11,12 +11,32 @@ def int_to_sstr(ctx, v):
         return SStr.lit("true" if v else "false")
     if isinstance(v, int):
         return SStr.lit(str(v))
-    # symbolic integer: non-negative assumed checked by caller
-    if ctx.must(v >= 0):
-        return SStr.sym(z3.IntToStr(v))
-    if ctx.decide(v >= 0):
-        return SStr.sym(z3.IntToStr(v))
-    return SStr((("-"), Sym(z3.IntToStr(-v))))
+    # symbolic integer: fork on sign and on the number of decimal digits; one fresh variable per digit,
+    # tied to the value by a linear equation (no div/mod)
+    cache = ctx.__dict__.setdefault("_int_render", {})
+    key = v.get_id()
+    if key in cache:
+        return cache[key]
+    neg = ctx.decide(v < 0)
+    a = -v if neg else v
+    nd = 1
+    while nd < 40 and not ctx.decide(a < 10 ** nd):
+        nd += 1
+    digits = []
+    total = 0
+    for k in range(nd - 1, -1, -1):
+        d = ctx.fresh("dig")
+        ctx.add(z3.And(d >= (1 if (k == nd - 1 and nd > 1) else 0), d <= 9))
+        total = total + d * (10 ** k)
+        c = ctx.fresh("digc")
+        ctx.add(c == d + 48)
+        ctx.char_cls[c.get_id()] = "digit"
+        digits.append(c)
+    ctx.add(a == total)
+    r = SStr.of_chars(([45] if neg else []) + digits)
+    cache[key] = r
+    ctx.__dict__.setdefault("_int_parse", {})[tuple(c.get_id() for c in digits)] = a
+    return r
 
 
 # ------------------------------------------------------------------ fmt
@@ -262,21 +282,16 @@ def m_str_contains(ctx, cty, a):
     s, p = as_sstr(a[0]), pat_sstr(a[1])
     if s.is_concrete() and p.is_concrete():
         return p.concrete() in s.concrete()
-    return z3.Contains(s.to_z3(), p.to_z3())
+    n, k = len(s), len(p)
+    from .models import b_or
+    return b_or(*[s.slice(i, i + k).eq(p) for i in range(0, n - k + 1)])
 
 
 @model("core::str::<impl str>::strip_prefix")
 def m_strip_prefix(ctx, cty, a):
     s, p = as_sstr(a[0]), pat_sstr(a[1])
     if ctx.decide(s.startswith(p)):
-        n = p.known_len()
-        ls = s.known_len()
-        if n is not None and ls is not None:
-            return opt_some(s.slice(n, ls))
-        if n is not None and s.parts and isinstance(s.parts[0], str) and len(s.parts[0]) >= n:
-            return opt_some(SStr((s.parts[0][n:],) + s.parts[1:]))
-        ln = s.length() - p.length()
-        return opt_some(SStr.sym(z3.SubString(s.to_z3(), p.length(), ln)))
+        return opt_some(s.slice(len(p), len(s)))
     return opt_none()
 
 
@@ -284,14 +299,7 @@ def m_strip_prefix(ctx, cty, a):
 def m_strip_suffix(ctx, cty, a):
     s, p = as_sstr(a[0]), pat_sstr(a[1])
     if ctx.decide(s.endswith(p)):
-        n = p.known_len()
-        ls = s.known_len()
-        if n is not None and ls is not None:
-            return opt_some(s.slice(0, ls - n))
-        if n is not None and s.parts and isinstance(s.parts[-1], str) and len(s.parts[-1]) >= n:
-            return opt_some(SStr(s.parts[:-1] + (s.parts[-1][:len(s.parts[-1]) - n],)))
-        ln = s.length() - p.length()
-        return opt_some(SStr.sym(z3.SubString(s.to_z3(), 0, ln)))
+        return opt_some(s.slice(0, len(s) - len(p)))
     return opt_none()
 
 
@@ -339,12 +347,42 @@ def m_str_parse(ctx, cty, a):
         if v < lo or v > hi:
             return res_err(ErrObj(SStr.lit("number too large to fit in target type")))
         return res_ok(v)
-    # symbolic: digits only (str.to_int gives -1 for non-digit strings)
-    z = s.to_z3()
-    v = z3.StrToInt(z)
-    if ctx.decide(v < 0):
-        return res_err(ErrObj(SStr.lit("invalid digit found in string")))
-    if ctx.decide(v > hi):
+    chars = list(s.chars)
+    if not chars:
+        return res_err(ErrObj(SStr.lit("cannot parse integer from empty string")))
+    neg = False
+    c0 = chars[0]
+    if type(c0) is int:
+        if c0 == 43 or (c0 == 45 and th[0] == "i"):
+            neg = c0 == 45
+            chars = chars[1:]
+            if not chars:
+                return res_err(ErrObj(SStr.lit("invalid digit found in string")))
+    elif not ctx.char_in(c0, "digit"):
+        c0c = ctx.concretize(c0, "sign char")
+        if c0c == 43 or (c0c == 45 and th[0] == "i"):
+            neg = c0c == 45
+            chars = chars[1:]
+            if not chars:
+                return res_err(ErrObj(SStr.lit("invalid digit found in string")))
+        else:
+            return res_err(ErrObj(SStr.lit("invalid digit found in string")))
+    v = None
+    if chars and all(type(c) is not int for c in chars):
+        v = ctx.__dict__.get("_int_parse", {}).get(tuple(c.get_id() for c in chars))
+    if v is None:
+        v = 0
+        for c in chars:
+            if not ctx.char_in(c, "digit"):
+                return res_err(ErrObj(SStr.lit("invalid digit found in string")))
+            v = v * 10 + (c - 48)
+    if neg:
+        v = -v
+    if isinstance(v, int):
+        if v < lo or v > hi:
+            return res_err(ErrObj(SStr.lit("number out of range")))
+        return res_ok(v)
+    if ctx.decide(z3.Or(v > hi, v < lo)):
         return res_err(ErrObj(SStr.lit("number too large to fit in target type")))
     return res_ok(v)
 
@@ -379,24 +417,55 @@ def m_str_ne(ctx, cty, a):
     return b_not(as_sstr(a[0]).eq(as_sstr(a[1])))
 
 
+def hasher_write(ctx, state, data):
+    h = deref(state)
+    if type(h) is Agg:
+        f = ctx.prog.traitimpl.get(("Hasher", Program._last(h.ty), "write"))
+        if f is not None:
+            ctx.call_function(f, [state, data])
+            return
+    raise Inconclusive("Hasher::write on %r" % (h,))
+
+
+def int_bytes(v, n):
+    if isinstance(v, bool):
+        v = int(v)
+    if isinstance(v, int):
+        v &= (1 << (8 * n)) - 1
+        return [(v >> (8 * k)) & 255 for k in range(n)]
+    return [v % 256] + [(v / (256 ** k)) % 256 for k in range(1, n)]
+
+
 @model("<_ as std::hash::Hash>::hash")
 def m_hash(ctx, cty, a):
-    h = deref(a[1])
+    state = a[1]
     v = deref(a[0])
-    if type(h) is Agg and h.ty == "verif::RecordingHasher":
-        h.fields[0].append(v)
-        return unit()
     if type(v) is Agg:
         f = ctx.prog.traitimpl.get(("Hash", Program._last(v.ty), "hash"))
         if f is not None:
             return ctx.call_function(f, [a[0], a[1]])
         if v.ty == "std::option::Option":
-            h.fields[0].append(v.variant)
+            hasher_write(ctx, state, SStr.of_chars(int_bytes(v.variant, 8)))
             if v.variant == 1:
-                m_hash(ctx, cty, [Ref(v.fields, 0), a[1]])
+                m_hash(ctx, cty, [Ref(v.fields, 0), state])
             return unit()
-    h.fields[0].append(v)
-    return unit()
+        if v.ty in ("tuple", "array"):
+            for i in range(len(v.fields)):
+                m_hash(ctx, cty, [Ref(v.fields, i), state])
+            return unit()
+        raise Inconclusive("Hash of %r" % (v,))
+    if isinstance(v, (SStr, StringObj)):
+        hasher_write(ctx, state, as_sstr(v))
+        hasher_write(ctx, state, SStr.of_chars([0xFF]))
+        return unit()
+    if isinstance(v, (int, bool)) or is_sym(v):
+        t = cty.a.strip_refs().head() if cty.kind == "qpath" else "u64"
+        n = INT_BITS.get(t, 64) // 8
+        if t == "bool":
+            n = 1
+        hasher_write(ctx, state, SStr.of_chars(int_bytes(v, n)))
+        return unit()
+    raise Inconclusive("Hash of %r" % (v,))
 
 
 @model("core::str::<impl str>::chars", "core::str::<impl str>::bytes")
